@@ -49,6 +49,12 @@ Proof.
   destruct i as [|[|i]], j as [|[|j]]; try reflexivity; centry.
 Qed.
 
+Theorem UserWaveguide2_src_ok L n0 n1 wl i j : UserWaveguide2_src L n0 n1 wl i j = UserWaveguide2 L n0 n1 wl i j.
+Proof.
+  unfold UserWaveguide2_src, UserWaveguide2.
+  destruct i as [|[|[|[|i]]]], j as [|[|[|[|j]]]]; try reflexivity; centry.
+Qed.
+
 Theorem PhaseShifter_src_ok PS i j : PhaseShifter_src PS i j = PhaseShifter PS i j.
 Proof.
   unfold PhaseShifter_src, PhaseShifter, twoport.
@@ -123,6 +129,7 @@ Proof.
 Qed.
 
 Print Assumptions Waveguide_src_ok.
+Print Assumptions UserWaveguide2_src_ok.
 Print Assumptions PhaseShifter_src_ok.
 Print Assumptions PushPull_src_ok.
 Print Assumptions TH_PhaseShifter_src_ok.
